@@ -21,7 +21,8 @@ func c03WalkTrace(wn *WalkerNode) string {
 // text with opaque branch strings (the fused grow-and-print path vs grower+spreader), JSON/YAML/TOML records,
 // callback walk, iterator walk; the deprecated aliases agree with their replacements.
 func VerifC03() {
-	n := verifN()
+	n := verifN() % 10
+	second := verifN() >= 10 // the second operation set (failing writer, dry-run report): a job of its own
 	// the program: NewRoot, then n-1 Adds; optionally some From-Root call runs between two Adds (any position)
 	root := &mNode{name: verifName("name")}
 	root.real = NewRoot(root.name)
@@ -43,7 +44,12 @@ func VerifC03() {
 	}
 	var rows []string
 	mMarkdownRows(root, 0, &rows)
-	op := verifChoose("op", 0, 5)
+	var op uint
+	if second {
+		op = verifChoose("op", 4, 5)
+	} else {
+		op = verifChoose("op", 0, 3)
+	}
 	verifContext("C03.pair")
 	switch op {
 	case 5: // Output with the dry-run option (0..1 opaque extension): the same report from both families
@@ -92,26 +98,28 @@ func VerifC03() {
 		verifAssert(e1 == nil && e2 == nil, "C03.enc.nil")
 		want := []*rec{recOfM(root)}
 		verifAssert(encMatches(kind, w1.out, want) && encMatches(kind, w2.out, want), "C03.enc")
-	case 2: // callback walk
+	case 2: // callback walk, with custom (opaque) branch strings: every entry point honours its options
 		t1, t2, t3, t4 := "", "", "", ""
-		e1 := WalkFromRoot(root.real, func(wn *WalkerNode) error { t1 += c03WalkTrace(wn); return nil })
-		e2 := WalkFromMarkdown(&verifReader{lines: rows}, func(wn *WalkerNode) error { t2 += c03WalkTrace(wn); return nil })
+		o1, o2 := WithBranchFormatLastNode(verifStr("ld"), verifStr("li")), WithBranchFormatIntermedialNode(verifStr("md"), verifStr("mi"))
+		e1 := WalkFromRoot(root.real, func(wn *WalkerNode) error { t1 += c03WalkTrace(wn); return nil }, o1, o2)
+		e2 := WalkFromMarkdown(&verifReader{lines: rows}, func(wn *WalkerNode) error { t2 += c03WalkTrace(wn); return nil }, o1, o2)
 		verifAssert(e1 == nil && e2 == nil, "C03.walk.nil")
 		verifObserve("walk", t1)
 		verifAssert(t1 == t2, "C03.walk")
-		e3 := WalkProgrammably(root.real, func(wn *WalkerNode) error { t3 += c03WalkTrace(wn); return nil })
-		e4 := Walk(&verifReader{lines: rows}, func(wn *WalkerNode) error { t4 += c03WalkTrace(wn); return nil })
+		e3 := WalkProgrammably(root.real, func(wn *WalkerNode) error { t3 += c03WalkTrace(wn); return nil }, o1, o2)
+		e4 := Walk(&verifReader{lines: rows}, func(wn *WalkerNode) error { t4 += c03WalkTrace(wn); return nil }, o1, o2)
 		verifAssert(e3 == nil && e4 == nil && t3 == t1 && t4 == t2, "C03.alias.walk")
-	case 3: // iterator walk vs callback walk
+	case 3: // iterator walk vs callback walk, with custom (opaque) branch strings
 		t1, t2, t3 := "", "", ""
-		for wn, err := range WalkIterFromRoot(root.real) {
+		o1, o2 := WithBranchFormatLastNode(verifStr("ld"), verifStr("li")), WithBranchFormatIntermedialNode(verifStr("md"), verifStr("mi"))
+		for wn, err := range WalkIterFromRoot(root.real, o1, o2) {
 			verifAssert(err == nil, "C03.iter.nil")
 			t1 += c03WalkTrace(wn)
 		}
-		e2 := WalkFromMarkdown(&verifReader{lines: rows}, func(wn *WalkerNode) error { t2 += c03WalkTrace(wn); return nil })
+		e2 := WalkFromMarkdown(&verifReader{lines: rows}, func(wn *WalkerNode) error { t2 += c03WalkTrace(wn); return nil }, o1, o2)
 		verifAssert(e2 == nil, "C03.iter.nil")
 		verifAssert(t1 == t2, "C03.iter")
-		for wn, err := range WalkIterProgrammably(root.real) {
+		for wn, err := range WalkIterProgrammably(root.real, o1, o2) {
 			verifAssert(err == nil, "C03.iter.nil")
 			t3 += c03WalkTrace(wn)
 		}
